@@ -5,7 +5,7 @@
    tables and except-clauses come from the generated tables. *)
 From Coq Require Import ZArith List Bool String.
 Require Import Base.PyNum Base.PyStr Base.Outcome Model.Values Model.Vocab Model.Types Model.Expected.
-Require Import Gen.GenScalars Gen.GenGates Gen.GenExcept.
+Require Import Gen.GenScalars Gen.GenGates Gen.GenExcept Gen.GenConds.
 Import ListNotations.
 Open Scope string_scope.
 
@@ -107,21 +107,23 @@ Definition py_len (v : pyval) : raw nat :=
   | _ => RRaise ETypeError
   end.
 
+Definition len_test (o : cmpop) (v : pyval) (n : nat) : raw bool :=
+  match py_len v with ROk m => ROk (op_test o (Nat.compare m n)) | RRaise e => RRaise e end.
+
+(* the stock adjective conditions; operator and constant of each come from Gen/GenConds.v *)
 Definition eval_adj (a : adj) (v : pyval) : raw bool :=
-  match a with
-  | APositive => cmp_test is_gt v 0
-  | ANegative => cmp_test is_lt v 0
-  | ANonPositive => cmp_test is_le v 0
-  | ANonNegative => cmp_test is_ge v 0
-  | AFinite =>
-      match v with
-      | VBool _ => ROk true
-      | VInt z => match float_of_Z z with Some _ => ROk true | None => RRaise EOverflowError end
-      | VFloat f => ROk (f_isfinite f)
-      | _ => RRaise ETypeError
-      end
-  | AEmpty => match py_len v with ROk n => ROk (Nat.eqb n 0) | RRaise e => RRaise e end
-  | ANonEmpty => match py_len v with ROk n => ROk (negb (Nat.eqb n 0)) | RRaise e => RRaise e end
+  match adj_num_test a, adj_len_test a with
+  | Some (o, z), _ => cmp_test (op_test o) v z
+  | None, Some (o, n) => len_test o v n
+  | None, None =>
+      if adj_is_finite a then
+        match v with
+        | VBool _ => ROk true
+        | VInt z => match float_of_Z z with Some _ => ROk true | None => RRaise EOverflowError end
+        | VFloat f => ROk (f_isfinite f)
+        | _ => RRaise ETypeError
+        end
+      else RRaise EOther
   end.
 
 Section AllAny.
@@ -140,11 +142,12 @@ Section AllAny.
 End AllAny.
 
 Definition range_atoms (v : pyval) (lo hi : option Z) : list (raw bool) :=
-  (map (fun z => cmp_test is_ge v z) (opt_list lo) ++ map (fun z => cmp_test is_le v z) (opt_list hi))%list.
+  (map (fun z => cmp_test (op_test valrange_lo_op) v z) (opt_list lo) ++
+   map (fun z => cmp_test (op_test valrange_hi_op) v z) (opt_list hi))%list.
 
 Definition len_atoms (v : pyval) (lo hi : option nat) : list (raw bool) :=
-  (map (fun n => match py_len v with ROk m => ROk (n <=? m)%nat | RRaise e => RRaise e end) (opt_list lo) ++
-  map (fun n => match py_len v with ROk m => ROk (m <=? n)%nat | RRaise e => RRaise e end) (opt_list hi))%list.
+  (map (fun n => len_test lenrange_lo_op v n) (opt_list lo) ++
+   map (fun n => len_test lenrange_hi_op v n) (opt_list hi))%list.
 
 Fixpoint eval_cond (c : cond) (v : pyval) : raw bool :=
   match c with
